@@ -8,4 +8,4 @@ CONSTANTS
   AddSizes = {1, 2}
   RewindPoints <- RPGen
 VIEW ViewNoHist
-INVARIANTS Deterministic ProofsOK StoreComplete SequentialSyncOK
+INVARIANTS Deterministic ProofsOK StoreComplete SequentialSyncOK PersistedConsistent
